@@ -285,3 +285,6 @@ func runOne(c *Case, r *Result, fn func()) {
 	}()
 	fn()
 }
+
+// Cached runs the concrete setup f (the engine reuses its result across paths).
+func Cached(key string, f func() interface{}) interface{} { return f() }
